@@ -3,6 +3,7 @@ import JetVerif.Model.Path
 import JetVerif.Model.Lex
 import Driver.Read
 import JetVerif.Model.Blocks
+import JetVerif.Model.StructCache
 import JetVerif.Model.Loaders
 import JetVerif.Model.SetM
 import JetVerif.Props.C20
@@ -203,6 +204,20 @@ def blockTablesCmd (store : Sexp) : Except String Sexp := do
       Sexp.list (.bytes p :: tbl.map fun (n, blk) => .list [.bytes n, .bytes blk.loc.path, Sexp.ofNat blk.loc.line])
   pure (.list (.atom "tables" :: rows))
 
+/-- C06: a struct type as `((#name exported anonymous kind (fields…)) …)` -/
+partial def readFields : Sexp → Option (List StructCache.F)
+  | .list fs => fs.mapM fun f => match f with
+    | .list [.bytes n, .atom e, .atom a, .atom k, sub] =>
+      (readFields sub).map fun s => StructCache.F.mk n (e == "true") (a == "true") (k == "struct") s
+    | _ => none
+  | _ => none
+
+def buildCacheCmd (ty : Sexp) : Sexp :=
+  match readFields ty with
+  | none => .atom "bad-op"
+  | some fs =>
+    .list (.atom "cache" :: (StructCache.buildCache fs).map fun (n, path) => .list [.bytes n, .list (path.map Sexp.ofNat)])
+
 def execDispatch (store entry exts esc globals vars data fuel : Sexp) : Sexp :=
   match execCmd store entry exts esc globals vars data fuel with
   | .ok r => r
@@ -221,6 +236,7 @@ def historyCmd (calls : List Sexp) : Sexp :=
 
 def dispatch : Sexp → Sexp
   | .list (.atom "history" :: calls) => historyCmd calls
+  | .list [.atom "buildcache", ty] => buildCacheCmd ty
   | .list [.atom "blocktables", store, _] =>
     match blockTablesCmd store with
     | .ok r => r
